@@ -5,7 +5,7 @@ data is an opaque bit string of symbolic length; so each discharged unit holds f
 structural induction for every DAG shape and depth.  Specification: vf/spec/cell.py (from the TON documents).
 """
 from vf.engine import obligation
-from vf.spec import cell as SC
+from vf.spec import cell as SC, enc as E
 from vf.bits import Seq
 from harness.common import (mk_builder, mk_slice, bits_of, call, Child, is_error, same_objects, abstract_cell,
                             abstract_child)
@@ -75,6 +75,12 @@ def init(w, r, m8):
     _claim_cell(w, c, bits, b, m8, kids, obs)
     k2, h2 = call(c.calculate_representation_hash)
     w.claim('recomputed representation hash agrees with the cached one', k2 == 'ok' and h2 == c.hash)
+    # the descriptor accessors called the way a user calls them (default arguments): d1 = r + 8s + 32l with s = l = 0, d2
+    k3, dd = call(c.get_descriptors)
+    w.claim('get_descriptors() == d1 d2 of the representation', k3 == 'ok' and
+            w.eq_seq(w.bytes_seq(dd), E.uint(SC.d1(r, False, 0), 8) + E.uint(SC.d2(b), 8)))
+    k4, d1_ = call(c.get_refs_descriptor, c.level_mask)
+    w.claim('get_refs_descriptor(own mask) == d1', k4 == 'ok' and w.eq_seq(w.bytes_seq(d1_), E.uint(SC.d1(r, False, 0), 8)))
 
 
 @obligation('C01.eq_hash', 'C01', fuc=[C + '__eq__', C + '__hash__', C + 'hash'],
